@@ -6,6 +6,7 @@
 #include "tape.hpp"
 #include <algorithm>
 #include <cmath>
+#include <exception>
 #include <cstdint>
 #include <limits>
 #include <sstream>
@@ -26,6 +27,32 @@ inline void vf_set_threads(int t) {
 #else
     (void) t;
 #endif
+}
+
+/// Runs f either directly or from inside an active OpenMP parallel region (thread 0 of a team of two). In the second case the
+/// library's own parallel loop gets a team of one thread although omp_get_max_threads() still reports the requested count:
+/// an index built from within a caller's parallel region must be the same index. Exceptions are carried out of the region.
+template<typename F>
+void run_maybe_nested(bool nested, F &&f) {
+#ifdef _OPENMP
+    if (nested) {
+        std::exception_ptr ep;
+#pragma omp parallel num_threads(2)
+        {
+            if (omp_get_thread_num() == 0) {
+                try {
+                    f();
+                } catch (...) {
+                    ep = std::current_exception();
+                }
+            }
+        }
+        if (ep) std::rethrow_exception(ep);
+        return;
+    }
+#endif
+    (void) nested;
+    f();
 }
 
 using i128 = __int128;
@@ -58,7 +85,7 @@ template<typename K> const char *type_name();
 #define VF_TN(T, N) template<> inline const char *type_name<T>() { return N; }
 VF_TN(uint8_t, "uint8_t") VF_TN(int8_t, "int8_t") VF_TN(uint16_t, "uint16_t") VF_TN(int16_t, "int16_t")
 VF_TN(uint32_t, "uint32_t") VF_TN(int32_t, "int32_t") VF_TN(uint64_t, "uint64_t") VF_TN(int64_t, "int64_t")
-VF_TN(float, "float") VF_TN(double, "double")
+VF_TN(float, "float") VF_TN(double, "double") VF_TN(long long, "long long") VF_TN(unsigned long long, "unsigned long long")
 #undef VF_TN
 
 /// Lattice on which keys of type K are generated: integers for integral K; m * 2^e for floating K.
@@ -437,7 +464,8 @@ std::vector<K> gen_keys(TapeReader &t, const GenOpts &o, KeyMeta &meta) {
     m.reserve(target);
     auto dup_len = [&]() -> size_t {
         size_t e = eps;
-        switch (t.below(o.dup_heavy ? 14 : 12)) {
+        switch (t.below(o.dup_heavy ? 15 : 12)) {
+            case 14: return 4096 + 2 * e + 8 + t.below(4000); // beyond the gallop distances a per-key memo / cache could be keyed on
             case 0: return 2;
             case 1: return e;
             case 2: return e + 1;
